@@ -7,6 +7,7 @@
 Scripts contain inputs only.  Fence probes are addressed relative to the node ("idx bytes before the
 start" / "idx bytes behind the end"); the driver skips a probe whose byte is not a fence byte it
 found, so nothing here decides a verdict: FENCE_BYTES below only says how far the plan *tries*."""
+import os
 import random
 from . import plans
 from .engine import Job
@@ -27,7 +28,9 @@ ALIGNS = [1, 2, 4, 8, 16]
 # Releasing a pointer that lies outside the only chunk of a memory_pool<small_node_pool> which has
 # not deallocated anything since it was constructed never terminates (find_chunk_impl walks over the
 # proxy node).  REMOVE THIS EXCLUSION (set to False) once the fix is in /repo.
-EXCLUDE_F18_SHAPE = True
+# VERIF_INCLUDE_F18=1 in the environment runs the excluded scenarios anyway (to show the defect, or to
+# verify a repair on a scratch copy: VERIF_REPO=<copy> VERIF_INCLUDE_F18=1 bin/vcheck run C16).
+EXCLUDE_F18_SHAPE = os.environ.get("VERIF_INCLUDE_F18") != "1"
 
 
 def is_f18_shape(h, cmds):
